@@ -17,7 +17,9 @@ CASES = {"quick": 2000, "thorough": 400000}
 RULE = ("RREL trees (depth<=2, <=3 paths, <=3 elements per path, all operators, flags '' +m: +p: +mp: +pm:, "
         "fixed names over an alphabet with both quote characters and backslashes, optional blanks between tokens) "
         "printed by the harness' printer; round trip parse->str->parse compared structurally, then both trees "
-        "evaluated with rrel.find on 3 fixed models from every object and for every 1-2 part name. "
+        "evaluated with rrel.find on 3 fixed models from every object and for every 1-2 part name; the names of the "
+        "parsed tree are also compared with the generated AST, after a twin expression that differs only by blanks inside "
+        "quoted names has been parsed. "
         "non-trivial: tree has >=3 nodes and a flag or '^' or a fixed name; distinct by canonical JSON of the case")
 ASSUMPTIONS = [
     "source texts are produced only from the documented RREL operator set",
